@@ -74,6 +74,13 @@ S_VALUES = [b"", b"a", b"ab\0cd", b"abcde", b"abc", b"\0\0z", b"q\0"]
 REC2_FIELDS = [("y", "f8", None), ("k", "i2", None), ("m", "f4", (3,))]
 
 
+# ERROR-PATH inputs: a column of a type that some callees (correctly) refuse AFTER they have started working -- the text record
+# writer raises "Unsupported type" for complex, bool, float16 and unicode columns.  The frame property holds whether or not the
+# call raised: the snapshots are compared after the exception as well.  (mode "badcolK": column BADCOLS[K] appended to the table)
+BADCOLS = [("zc", "c8", None), ("zb", "b1", None), ("zh", "f2", None), ("zu", "U2", None)]
+EXTRA_FIELDS = []       # set by build_args for the duration of one case
+
+
 def rec_dtype(fields, order):
     import numpy as np
     descr = []
@@ -103,6 +110,12 @@ def fill_rec(a, rs):
             f[...] = [b"ab%d" % (i % 7) for i in range(flat.size)]
         elif k == "f":
             f[...] = rs.uniform(-50, 50, size=f.shape)
+        elif k == "c":
+            f[...] = rs.uniform(-50, 50, size=f.shape) + 1j * rs.uniform(-50, 50, size=f.shape)
+        elif k == "b":
+            f[...] = rs.randint(0, 2, size=f.shape).astype(bool)
+        elif k == "U":
+            f[...] = np.array(["%d" % (i % 97) for i in range(f.size)]).reshape(f.shape)
         else:
             f[...] = rs.randint(0, 100, size=f.shape)
 
@@ -181,13 +194,13 @@ def make_array(kind, dt, order, layout, nd, rs, nelem=6):
         shape = (3,)
     # ---- dtype
     if kind in ("rec", "rec_like"):
-        dtype = rec_dtype(REC_FIELDS, order)
+        dtype = rec_dtype(REC_FIELDS + EXTRA_FIELDS, order)
     elif kind == "recio":
-        dtype = rec_dtype(RECIO_FIELDS, order)
+        dtype = rec_dtype(RECIO_FIELDS + EXTRA_FIELDS, order)
     elif kind == "recnum":
-        dtype = rec_dtype(RECNUM_FIELDS, order)
+        dtype = rec_dtype(RECNUM_FIELDS + EXTRA_FIELDS, order)
     elif kind == "rec2":
-        dtype = rec_dtype(REC2_FIELDS, order)
+        dtype = rec_dtype(REC2_FIELDS + EXTRA_FIELDS, order)
     elif kind == "wcsrec":
         hdr = ns_const("TAN_HDR")
         f = [(k, "U12" if isinstance(v, str) else ("f8" if isinstance(v, float) else "i4"), None) for k, v in hdr.items()]
@@ -525,12 +538,22 @@ def build_args(d, arr, c, rs, nelem):
     then stored in an array of the case's dtype / byte order / layout: what a user who precomputes them passes."""
     import numpy as np
     args, later = {}, []
-    for p in arr:
-        k = d["gen"][p]
-        if k.startswith(("htmid:", "htmrev:")):
-            later.append(p)
-        else:
-            args[p] = make_array(k, c["dt"], c["order"], c["layout"], c["nd"], rs, nelem=nelem)
+    mode = c.get("mode", "plain")
+    checked = [p for p in arr if p not in d["exempt"]]
+    del EXTRA_FIELDS[:]
+    if mode.startswith("badcol"):
+        EXTRA_FIELDS.append(BADCOLS[int(mode[6:]) % len(BADCOLS)])
+    try:
+        for p in arr:
+            k = d["gen"][p]
+            if k.startswith(("htmid:", "htmrev:")):
+                later.append(p)
+            else:
+                # mode "mismatch": the LAST array argument is one element longer than the others (a call that is rejected midway)
+                n_ = nelem + 1 if (mode == "mismatch" and checked and p == checked[-1]) else nelem
+                args[p] = make_array(k, c["dt"], c["order"], c["layout"], c["nd"], rs, nelem=n_)
+    finally:
+        del EXTRA_FIELDS[:]
     for p in sorted(later, key=lambda q: d["gen"][q].startswith("htmrev:")):
         k = d["gen"][p]
         ns = namespace()
@@ -593,6 +616,16 @@ def forms(d, full):
         out += [(dt0, "native", "slice", nd1, "roview"), (dt0, "native", "reshaped", nd1 if nd1 else nd0, "plain")]
     if d["dt"] == drv.REC:
         out.append((dt0, "swapped", "fieldview", nd1, "plain"))
+    # error paths: calls that are (correctly) REJECTED midway
+    if d["dt"] == drv.REC:
+        k0 = zlib.crc32(d["name"].encode()) % 4
+        out += [(dt0, "swapped", "contig", nd1, "badcol%d" % k0), (dt0, "native", "contig", nd1, "badcol%d" % ((k0 + 1) % 4))]
+        if full:
+            out += [(dt0, o, lay, nd1, "badcol%d" % k) for k in range(4) for o in orders for lay in ("contig", "strided", "slice")]
+    elif n_checked(d) >= 2 and nd1 >= 1:
+        out.append((dt0, "native", "contig", nd1, "mismatch"))
+        if full:
+            out += [(dt0, "swapped", "strided", nd1, "mismatch"), (d["dt"][-1], "native", "contig", nd1, "mismatch")]
     out.append((dt0, "native", "contig", nd1, "seq"))
     out.append((dt0, "native", "contig", nd1, "special"))
     if "f4" in d["dt"] and full:
@@ -653,7 +686,7 @@ def quick_trim(d, out):
         # quick: the generated writer option matrix has > 100 drivers; each keeps the corners that have caught something so far
         # (native contiguous, swapped strided, read-only, swapped row slice of a parent, call sequence, -0.0 / NaN values)
         keep = lambda v: (v[4] == "plain" and (v[1], v[2]) in (("native", "contig"), ("swapped", "strided"), ("swapped", "slice"))) \
-            or v[4] in ("ro", "seq", "special")
+            or v[4] in ("ro", "seq", "special") or v[4].startswith("badcol")
         out = [v for v in out if keep(v)]
     return out
 
